@@ -248,4 +248,38 @@ example : ((3:ℕ) : ℚ) * (2:ℕ) * (1 / 2 - 0) - 2 * (2:ℕ) <
         ((0:ℚ) ≤ (baryGrid (K := ℚ) 3 2 idx).2 ∧ (baryGrid (K := ℚ) 3 2 idx).2 < 1))).length : ℚ) :=
   (baryGrid_strip_even 3 2 0 (1 / 2) le_rfl (by norm_num) (by norm_num) (by norm_num)).1
 
+/-! ### evaluated domains `D(**σ)`: the sampler of an evaluated copy is the parent's sampler at the extended parameter row -/
+
+/-- **Sampling an evaluated domain = sampling the parent with the values supplied as parameters.**  For every primitive and
+    primitive boundary, every partial assignment `σ` (the `D(t = …)` of the code), every remaining parameter row `ρ` and all
+    draws, the evaluated copy `D.peval σ` returns exactly the point the parent returns at the row `ρ ++ σ`.  Evaluation is a
+    pure function of `(D, σ)`: copies made from one parent at different values are independent of each other and of the order
+    in which they were created (in the code: `partially_evaluate` must deep-copy the defaults; a copy that shares them re-binds
+    the earlier siblings — the object-history stream of harness/c11.py samples EARLIER copies after LATER ones were made). -/
+theorem primSample_peval {K : Type} [Add K] [Sub K] [Mul K] [Div K] [Neg K] [LE K] [DecidableLE K] [OfNat K 0] [OfNat K 1]
+    [Transc K] (D : Dom K) (σ ρ : Env K) (tape : List K) :
+    primSample (D.peval σ) ρ tape = primSample D (ρ ++ σ) tape := by
+  rcases tape with _ | ⟨a, _ | ⟨b, _ | ⟨c, _ | ⟨d, t⟩⟩⟩⟩ <;>
+    cases D with
+    | bdry d => cases d <;> rfl
+    | bdryL d => cases d <;> rfl
+    | bdryR d => cases d <;> rfl
+    | _ => rfl
+
+/-- two evaluated copies of one parent: sampling the first one does not depend on the second one having been made
+    (stated for the model, where it is true by construction; the code is held to it by the correspondence) -/
+theorem primSample_peval_siblings {K : Type} [Add K] [Sub K] [Mul K] [Div K] [Neg K] [LE K] [DecidableLE K] [OfNat K 0]
+    [OfNat K 1] [Transc K] (D : Dom K) (σ₁ σ₂ ρ : Env K) (tape : List K) :
+    (primSample (D.peval σ₁) ρ tape, primSample (D.peval σ₂) ρ tape) =
+      (primSample D (ρ ++ σ₁) tape, primSample D (ρ ++ σ₂) tape) := by
+  rw [primSample_peval, primSample_peval]
+
+/-- an interval whose upper bound `t + D` is ONE function of two outside variables: `D(t = 1)` is a partial evaluation -/
+noncomputable def exEvalInterval : Dom ℝ :=
+  .interval "y" (PFun.const [0]) ⟨["t", "D"], fun e => match e.get "t", e.get "D" with | some [t], some [d] => [t + d] | _, _ => []⟩
+
+example : primSample (exEvalInterval.peval [("t", [1])]) [("D", [5])] [1 / 2] =
+    primSample exEvalInterval ([("D", [5])] ++ [("t", [1])]) [1 / 2] :=
+  primSample_peval _ _ _ _
+
 end TPV.Geom
